@@ -2,15 +2,21 @@
 C11 — the sorted set agrees with a reference ranking under any operation sequence.
 Property theorems only.
 
-Model (Model/C11.lean), two layers: L = `zskiplist.go` abstracted to its content list, every exported
-primitive specified the way its level-0 walk proceeds; Z = `zset.go` structurally on top of L.
+Model, three layers.  S (Model/C11S.lean) = `zskiplist.go` itself: node table, towers of (forward, span),
+backward pointers, header, tail, length, level; every operation as the Go code walks, the tower height
+an input of `Insert`.  L (Model/C11.lean) = the skip list abstracted to its content list, every exported
+primitive specified the way its level-0 walk proceeds.  Z / ZS = `zset.go` structurally on top of L /
+on top of S (Model/C11.lean, Model/C11ZS.lean).
 Reference (Model/C11Spec.lean): a member→score table, and per query the table sorted by
 (score, member) — score ranges include both ends, rank ranges select the positions between the two
-indices, a negative index counting from the end.  Lemmas: Lemmas/C11L.lean, Lemmas/C11Z.lean.
-The pointer/span/tower structure of the real skip list is NOT covered by these theorems: it is tied to
-L by the correspondence run (every primitive compared directly) and by the invariant probe.
+indices, a negative index counting from the end.
+Lemmas: Lemmas/C11L.lean, C11Z.lean (content level); C11SBase … C11SDelRange (structure: invariant,
+search, insert, deleteNode, rank lookups, range deletions); C11ZS1 … C11ZS3 (zset.go over the structure).
+The first block of theorems is about Z over L; the block "the structural skip list S" proves that S
+keeps its invariant and refines L for every tower height, and composes: zset.go over the pointer/span
+structure agrees with the reference ranking (`C11_zset_spec_structural`).
 -/
-import Fatchoy.Lemmas.C11Z
+import Fatchoy.Lemmas.C11ZS3
 import Fatchoy.Model.C11Params
 namespace Fatchoy.C11
 
@@ -137,6 +143,103 @@ theorem C11_range_by_rank (l : SL) (start stop : Int) (reverse : Bool) :
       some ((slice (if reverse then l.reverse else l) start stop).map (·.ele)) :=
   rangeByRank_spec l start stop reverse
 
+/-! ### the structural skip list S (Model/C11S.lean): zskiplist.go with its pointers and spans
+
+`S.SOk s` (Lemmas/C11SBase.lean, `Inv`): following level 0 from the header yields a duplicate-free chain
+of valid node ids; at every level i every node's forward pointer is the next node of the chain whose
+tower is higher than i and its span is the level-0 distance to it (a link without successor spans the
+rest of the list) — so every level-i chain is a sub-chain of level 0 and spans sum to ranks; backward
+pointers, tail, length fit the chain; 1 ≤ level ≤ header height, no tower is higher than `level`, and
+the top level is not empty; the content `S.abs s` is strictly sorted by (score, member). -/
+
+/-- `NewZSkipList()` satisfies the invariant and is empty. -/
+theorem S_new (ml : Nat) (h : 1 ≤ ml) : S.SOk (S.new ml) ∧ S.abs (S.new ml) = [] ∧ S.height (S.new ml) 0 = ml := by
+  have hI := S.inv_new ml h
+  refine ⟨S.SOk_of_inv hI, by rw [hI.abs_eq]; rfl, by simp [S.new, S.height, S.nd]⟩
+
+/-- `Insert` as the Go code walks (update[]/rank[] search, span arithmetic, level growth, backward
+  fix-up), for EVERY tower height 1 ≤ h ≤ header height: it terminates, the invariant holds again, the
+  content is `L.insert` of the content, and the returned node carries (score, member).
+  (Contract of the code: the pair is not already in the list.) -/
+theorem S_insert (s : S.SList) (hs : S.SOk s) (score : Int) (ele : Nat) (h : Nat)
+    (h1 : 1 ≤ h) (hh : h ≤ S.height s 0) (hn : (⟨score, ele⟩ : Node) ∉ S.abs s) :
+    ∃ t id, S.insert s score ele h = some (t, id) ∧ S.SOk t ∧ S.abs t = L.insert (S.abs s) score ele ∧
+      S.nodeOf t id = ⟨score, ele⟩ ∧ S.height t 0 = S.height s 0 :=
+  S.insert_refines hs score ele h h1 hh hn
+
+/-- `Delete`/`deleteNode` (unlinking with span repair at every level, backward fix-up, level
+  shrinking): terminates, keeps the invariant, content and returned node are those of `L.delete`. -/
+theorem S_delete (s : S.SList) (hs : S.SOk s) (score : Int) (ele : Nat) :
+    ∃ t r, S.delete s score ele = some (t, r) ∧ S.SOk t ∧ S.abs t = (L.delete (S.abs s) score ele).1 ∧
+      r.map (S.nodeOf s) = (L.delete (S.abs s) score ele).2 ∧ S.height t 0 = S.height s 0 := by
+  obtain ⟨t, r, h1, h2, h3, h4, _, h6⟩ := S.delete_refines hs score ele
+  exact ⟨t, r, h1, h2, h3, h4, h6⟩
+
+/-- `GetRank` summing spans along the search path = the rank of layer L (the position in the content),
+  inside the calling contract. -/
+theorem S_getRank (s : S.SList) (hs : S.SOk s) (score : Int) (ele : Nat)
+    (hcon : L.RankContract (S.abs s) score ele) :
+    S.getRank s score ele = some ((L.getRank (S.abs s) score ele : Nat) : Int) :=
+  S.getRank_refines hs score ele hcon
+
+/-- `GetElementByRank` walking by spans returns the node at that position of `header :: chain`
+  (`ptrAt`), which is what layer L answers: header for 0, nil outside 0..length. -/
+theorem S_getElementByRank (s : S.SList) (hs : S.SOk s) (rank : Int) :
+    S.getElementByRank s rank = some (S.ptrAt (S.ids s) rank) ∧
+    L.getElementByRank (S.abs s) rank =
+      match S.ptrAt (S.ids s) rank with
+      | none => L.ByRank.none
+      | some 0 => L.ByRank.head
+      | some (x + 1) => L.ByRank.node (S.nodeOf s (x + 1)) :=
+  ⟨S.getElementByRank_ptr hs rank, S.ptrAt_L hs rank⟩
+
+/-- `IsInRange`, `FirstInRange`, `LastInRange` through the level search = layer L; in particular
+  `LastInRange` never returns the header. -/
+theorem S_inRange (s : S.SList) (hs : S.SOk s) (min max : Int) :
+    S.isInRange s min max = L.isInRange (S.abs s) min max ∧
+    (∃ p, S.firstInRange s min max = some p ∧ p.map (S.nodeOf s) = L.firstInRange (S.abs s) min max ∧
+      ∀ x, p = some x → x ∈ S.ids s) ∧
+    (∃ p, S.lastInRange s min max = some p ∧ p.map (S.nodeOf s) = L.lastInRange (S.abs s) min max ∧
+      ∀ x, p = some x → x ∈ S.ids s) := by
+  refine ⟨S.isInRange_refines hs min max, ?_, ?_⟩
+  · obtain ⟨p, h1, h2, h3⟩ := S.firstInRange_refines hs min max
+    exact ⟨p, h1, h2, fun x hx => (h3 x hx).1⟩
+  · obtain ⟨p, h1, h2, h3⟩ := S.lastInRange_refines hs min max
+    exact ⟨p, h1, h2, fun x hx => (h3 x hx).1⟩
+
+/-- `DeleteRangeByScore` and `DeleteRangeByRank` (one search, then `deleteNode` in a loop with the same
+  update[]): terminate, keep the invariant, and remove exactly what layer L removes, in the same order. -/
+theorem S_deleteRange (s : S.SList) (hs : S.SOk s) (a b : Int) :
+    (∃ t, S.deleteRangeByScore s a b = some (t, (L.deleteRangeByScore (S.abs s) a b).2) ∧ S.SOk t ∧
+      S.abs t = (L.deleteRangeByScore (S.abs s) a b).1 ∧ S.height t 0 = S.height s 0) ∧
+    (∃ t, S.deleteRangeByRank s a b = some (t, (L.deleteRangeByRank (S.abs s) a b).2) ∧ S.SOk t ∧
+      S.abs t = (L.deleteRangeByRank (S.abs s) a b).1 ∧ S.height t 0 = S.height s 0) := by
+  constructor
+  · obtain ⟨t, h1, h2, h3, _, h5⟩ := S.deleteRangeByScore_refines hs a b
+    exact ⟨t, h1, h2, h3, h5⟩
+  · obtain ⟨t, h1, h2, h3, _, h5⟩ := S.deleteRangeByRank_refines hs a b
+    exact ⟨t, h1, h2, h3, h5⟩
+
+/-- The composed theorem: zset.go running on the STRUCTURAL skip list agrees with the reference
+  ranking.  For every header height `ml ≥ 1` (the regenerated `ZSKIPLIST_MAXLEVEL` is one, `C11_valid`),
+  every call sequence and every choice of tower heights 1..ml for the calls that insert: no pointer walk
+  runs out of fuel (the code terminates), and every result equals the result computed from the
+  reference table by sorting it — `C11_zset_spec` with the pointer/span structure underneath. -/
+theorem C11_zset_spec_structural (ml : Nat) (hml : 1 ≤ ml) (ops : List (Op × Nat))
+    (hh : ∀ p ∈ ops, 1 ≤ p.2 ∧ p.2 ≤ ml) :
+    traceS (ZS.empty ml) ops = some (refTrace [] (ops.map (·.1))) := by
+  rw [(traceS_sim ops hh (ZS.empty ml) ZSet.empty [] (relS_empty ml hml) rel_empty).1, C11_zset_spec]
+
+/-- … and after any such sequence the structure satisfies the invariant, its content is the reference
+  table sorted by (score, member), and its dict is the dict of the content-level run. -/
+theorem C11_structure_ok (ml : Nat) (hml : 1 ≤ ml) (ops : List (Op × Nat))
+    (hh : ∀ p ∈ ops, 1 ≤ p.2 ∧ p.2 ≤ ml) :
+    ∃ zs, runS (ZS.empty ml) ops = some zs ∧ S.SOk zs.sl ∧
+      S.abs zs.sl = ranking (refRun [] (ops.map (·.1))) ∧
+      zs.dict = (run ZSet.empty (ops.map (·.1))).dict := by
+  obtain ⟨zs, h1, h2⟩ := (traceS_sim ops hh (ZS.empty ml) ZSet.empty [] (relS_empty ml hml) rel_empty).2
+  exact ⟨zs, h1, h2.ok, by rw [h2.abs]; exact (C11_ranking _).1, h2.dict⟩
+
 /-! ### non-vacuity (tests, not proofs): a run with ties, a score update, both range removals -/
 
 def demoOps : List Op :=
@@ -155,6 +258,14 @@ example : trace ZSet.empty demoOps =
 
 example : (run ZSet.empty demoOps).zsl = [⟨2, 5⟩, ⟨2, 6⟩] ∧ Sorted [⟨2, 5⟩, ⟨2, 6⟩] :=
   ⟨by decide, by unfold Sorted; decide⟩
+
+/-- the same run on the structural skip list, with tower heights 1..4 drawn for the seven inserts -/
+def demoOpsS : List (Op × Nat) :=
+  demoOps.zip [2, 1, 4, 1, 3, 1, 0, 0, 0, 0, 2, 0, 0, 0, 0, 0] |>.map (fun p => (p.1, if p.2 = 0 then 1 else p.2))
+
+example : (traceS (ZS.empty 12) demoOpsS) = some (trace ZSet.empty demoOps) := by decide
+
+example : ∀ p ∈ demoOpsS, 1 ≤ p.2 ∧ p.2 ≤ 12 := by decide
 
 example : slice [10, 11, 12, 13, 14] (-2) 9 = [13, 14] ∧ slice [10, 11, 12, 13, 14] (-9) 1 = [10, 11] ∧
     slice [10, 11, 12, 13, 14] 3 1 = ([] : List Nat) := by decide
